@@ -401,6 +401,7 @@ struct LoggerTable
     const OpenFn* open;        // [severity]
     const LocalFn* local;      // [severity]: the named form with a local variable
     const LocalFn* moved;      // [severity]: … moved into another variable half-way
+    const LocalFn* const* bound; // [severity][declaration form]: by value / by reference, from the plain call / from a chain
     const int* kind;           // [severity]: 1 smart_stream, 0 null_stream, 2 anything else
     bool (*will_log)(int);                    // logger::will_log on a record of that severity
     void (*log)(int, const std::string&);     // logger::log(severity, record with that message)
@@ -513,6 +514,26 @@ template <int S> void named_moved(const std::string* tag, const Item* it, int n)
     for (int i = half; i < n; i++) put_item(t, it[i]);
 }
 static const LocalFn k_moved[6] = { %s };
+// declaration forms of a named stream other than `auto s = L::sev(tag);`: initialised from a `<<` chain (first item S / N / o)
+// by value or bound to a reference, then filled by further `s << …;` statements; the object dies at the end of the scope
+#define VH_BOUND(NAME, DECL, FROM)                                                          \\
+    template <int S> void NAME(const std::string* tag, const Item* it, int n)               \\
+    {                                                                                       \\
+        (void)it;                                                                           \\
+        DECL;                                                                               \\
+        for (int i = FROM; i < n; i++) put_item(s, it[i]);                                  \\
+    }
+VH_BOUND(bound_val_S, auto s = Mk<S>::make(tag) << it[0].s, 1)
+VH_BOUND(bound_val_N, auto s = Mk<S>::make(tag) << it[0].n, 1)
+VH_BOUND(bound_val_o, auto s = (Mk<S>::make(tag) << Cb{ it[0].id, it[0].s }), 1)
+VH_BOUND(bound_ref, auto&& s = Mk<S>::make(tag), 0)
+VH_BOUND(bound_ref_S, auto&& s = Mk<S>::make(tag) << it[0].s, 1)
+VH_BOUND(bound_ref_N, auto&& s = Mk<S>::make(tag) << it[0].n, 1)
+VH_BOUND(bound_ref_o, auto&& s = (Mk<S>::make(tag) << Cb{ it[0].id, it[0].s }), 1)
+// (`const auto& s = L::sev();` compiles but cannot be streamed into: every operator<< takes a non-const stream)
+constexpr int NBOUND = 7; // index: 0-2 by value from a chain S/N/o, 3 reference to the plain call, 4-6 reference to a chain S/N/o
+%s
+static const LocalFn* const k_bound[6] = { %s };
 // direct use of the two public static members the streams are built on: will_log(record) and log(severity, record)
 static bool direct_will_log(int sv)
 {
@@ -529,9 +550,13 @@ static void direct_log(int sv, const std::string& msg)
 }
 } // namespace lg%d
 extern const LoggerTable k_logger_%d;
-const LoggerTable k_logger_%d = { "%s/%s/%s", lg%d::NSHAPES, lg%d::k_shape_name, lg%d::k_one, lg%d::k_open, lg%d::k_local, lg%d::k_moved, lg%d::k_kind, &lg%d::direct_will_log, &lg%d::direct_log };
+const LoggerTable k_logger_%d = { "%s/%s/%s", lg%d::NSHAPES, lg%d::k_shape_name, lg%d::k_one, lg%d::k_open, lg%d::k_local, lg%d::k_moved, lg%d::k_bound, lg%d::k_kind, &lg%d::direct_will_log, &lg%d::direct_log };
 """ % (slot_cases(), ", ".join("&open_slot<%d>" % s for s in range(6)), ", ".join("&named_local<%d>" % s for s in range(6)),
-       ", ".join("&named_moved<%d>" % s for s in range(6)), i, i, i, f, m, rc, i, i, i, i, i, i, i, i, i))
+       ", ".join("&named_moved<%d>" % s for s in range(6)),
+       "\n".join("static const LocalFn k_bound_%d[NBOUND] = { %s };" % (s, ", ".join("&%s<%d>" % (nm, s) for nm in
+                 ("bound_val_S", "bound_val_N", "bound_val_o", "bound_ref", "bound_ref_S", "bound_ref_N", "bound_ref_o"))) for s in range(6)),
+       ", ".join("k_bound_%d" % s for s in range(6)),
+       i, i, i, f, m, rc, i, i, i, i, i, i, i, i, i, i))
     return "\n".join(o) + "\n"
 
 
@@ -723,6 +748,29 @@ static std::string run_case(const std::vector<std::string>& w)
                 if (f[4] != ".")
                     for (auto& e : vh::split_on(f[4], ',')) items.push_back(parse_item(e));
                 k_logger[lg]->moved[sv](has_tag ? &tag : nullptr, items.data(), static_cast<int>(items.size()));
+            }
+            else if (o[0] == 'B' && f.size() == 5 && f[0].size() == 2)
+            {
+                // B1 auto s = L::sev(tag) << first;   B2 auto&& s = L::sev(tag);   B3 auto&& s = L::sev(tag) << first;   then s << rest…;
+                int d = digit_of(f[0][1], 4);
+                int lg = parse_logger(f[1]);
+                int sv = digit_of(f[2].at(0), 6);
+                std::string tag;
+                bool has_tag = parse_tag(f[3], tag);
+                std::vector<Item> items;
+                if (f[4] != ".")
+                    for (auto& e : vh::split_on(f[4], ',')) items.push_back(parse_item(e));
+                int form = 3;
+                if (d == 1 || d == 3)
+                {
+                    if (items.empty()) throw Bad();
+                    char k = items[0].kind == 'C' ? items[0].ck : items[0].kind;
+                    int j = k == 'S' ? 0 : k == 'N' ? 1 : k == 'o' ? 2 : -1;
+                    if (j < 0) throw Bad();
+                    form = (d == 1 ? 0 : 4) + j;
+                }
+                else if (d != 2) throw Bad();
+                k_logger[lg]->bound[sv][form](has_tag ? &tag : nullptr, items.data(), static_cast<int>(items.size()));
             }
             else if (o[0] == 'D' && f.size() == 4 && f[0].size() == 1)
             {
